@@ -18,7 +18,7 @@ import vlib
 
 LEVEL = "model_checking"
 HOOK_FILE = "protocol/lavasession/provider_verif.go"
-LABELS = {"register", "create", "got", "addcas", "work", "subcas", "uloaded", "uswapped"}
+LABELS = {"register", "regnew", "regget", "create", "got", "addcas", "work", "subcas", "uloaded", "uswapped"}
 OUTCOMES = {"ok", "failed", "busy", "out_of_sync", "max_cu", "cu_mismatch", "invalid_epoch", "failed_stale"}
 
 
@@ -41,11 +41,18 @@ def _need_hooks():
     for sym in ("VerifYield", "VerifUsedComputeUnits", "VerifIsLocked"):
         if sym not in src:
             raise vlib.Infra("hook symbol %s missing in %s" % (sym, p))
+    mgr = open(os.path.join(vlib.REPO, "protocol/lavasession/provider_session_manager.go")).read()
+    for point in ("reg_before_register", "reg_before_getsession", "usc_loaded"):
+        if point not in mgr:
+            raise vlib.Infra("yield point %s missing in %s/protocol/lavasession/provider_session_manager.go: apply "
+                             "/verif/hooks/lavasession_provider_register.patch" % (point, vlib.REPO))
 
 
 def _signature(name, ev):
     """canonical class of the failing real state (stable across seeds)"""
     sids = [o["sid"] for o in ev.get("objs", [])]
+    if ev.get("npswc", 0) > 1:
+        return "second-project-entry:" + name              # a project got a second entry (fresh CU budget) in one epoch
     if len(set(sids)) < len(sids):
         return "duplicate-session-object:" + name          # F9 class: two objects for one session id
     if name in ("Accounting", "AccountingStrong"):
